@@ -485,7 +485,7 @@ func (fc *FnCtx) globalAssumptions(s *State) {
 		_ = g
 		break
 	}
-	if gc := fc.eng.cs.Funcs["$globals"]; gc != nil {
+	if gc := fc.eng.cs.Funcs["$globals"]; gc != nil && fc.pkg.Name() == "decimal" {
 		env := &Env{fc: fc, names: map[string]Val{}, heap: s.heap, oldNames: map[string]Val{}, oldHeap: s.heap}
 		for _, r := range gc.Requires {
 			s.assume(fc.evalSpecBool(env, r.E))
